@@ -85,7 +85,7 @@ TESTED_NOT_PROVED = [
     "graph_to_rsmi / its_to_rsmi / gml_to_smart: modelled up to the two RWMol handed to RDKit (observed on the real call by a spy on "
     "graph_to_smi / GraphToMol.graph_to_mol); what RDKit writes from them is not modelled",
 ]
-LEVEL_TEXT = ("Machine-checked proof (Coq, 51 theorems, closed under the global context) over an executable model of the GML writer/reader at "
+LEVEL_TEXT = ("Machine-checked proof (Coq, 52 theorems, closed under the global context) over an executable model of the GML writer/reader at "
               "record level, of its_to_gml / gml_to_its / smart_to_gml / get_rc / its_decompose / ITSGraph at graph level, of h_to_explicit / "
               "h_to_implicit, and of the attribute copying of MolToGraph / GraphToMol: label round trip for every element symbol and every "
               "charge; ITS -> GML -> ITS restores atoms, both-side charges and (before, after) orders for every reaction-centre-shaped ITS, "
@@ -1777,6 +1777,26 @@ def distribution(cases, obss):
                     d["bare_H_graphs"] += 1
         if k == "its" and c.get("rule_name") is not None and isinstance(o, list) and len(o) == 2:
             o = o[0]
+        if k == "smart" and c.get("of") and c.get("sanitize", True):
+            # premise of C10_rule_renumbering_records: the records of a renumbered string are the records of the original with the
+            # map numbers replaced through one injective function (same atoms in the same order, same bonds)
+            try:
+                ok = True
+                sg = {}
+                for a, b in zip(c["of"].split(">>"), c["rsmi"].split(">>")):
+                    ra, rb = mol_record(a), mol_record(b)
+                    if ra is None or rb is None or len(ra["atoms"]) != len(rb["atoms"]) or ra["bonds"] != rb["bonds"]:
+                        ok = False
+                        break
+                    for x, y in zip(ra["atoms"], rb["atoms"]):
+                        if x[:4] != y[:4] or sg.setdefault(x[4], y[4]) != y[4]:
+                            ok = False
+                if len(set(sg.values())) != len(sg):
+                    ok = False
+                key = "renumbered_records_are_remaps:" + str(ok)
+                d["cfg_counts"][key] = d["cfg_counts"].get(key, 0) + 1
+            except Exception:
+                pass
         if k in ("its", "smart") and isinstance(o, list):
             try:
                 for oo in o:
